@@ -49,17 +49,27 @@ def runSteps (cfg : Cfg) (isURL : Bytes → Bool) : List Bytes → Run → List 
       | [] => runSteps cfg isURL rest r ds
     | _ => runSteps cfg isURL rest r ds
 
+/-- The same, also producing the WIRE form of everything written: sendLoop renders an event when it
+    takes it from the queue, i.e. with the capabilities enabled after the step that wrote it (the
+    harness puts a barrier after every step). -/
+def runStepsWire (cfg : Cfg) (isURL : Bytes → Bool) : List Bytes → Run → List Bytes → Except Fault (Run × List Bytes)
+  | [], r, w => .ok (r, w)
+  | s :: rest, r, w => do
+    let (r', _) ← runSteps cfg isURL [s] r []
+    let fresh := (r'.written.drop r.written.length).map (wireEvent r'.cs.st)
+    runStepsWire cfg isURL rest r' (w ++ fresh)
+
 def handleRun (op : String) (args : List String) : Option String :=
   match op, args with
   | "run", [c, steps, bad] => do
     let cfg ← argCfg c
     let steps ← argList steps
     let bad ← argList bad
-    match runSteps cfg (fun w => !bad.contains w) steps {} [] with
-    | .ok (r, ds) =>
-      let w := r.written.map (wireEvent r.cs.st)
+    match runSteps cfg (fun w => !bad.contains w) steps {} [], runStepsWire cfg (fun w => !bad.contains w) steps {} [] with
+    | .ok (r, ds), .ok (_, w) =>
       pure s!"W={listHx w} D={";".intercalate (ds.map listHx)} E={showEnded r.ended} F=-"
-    | .error f => pure s!"W=[] D= E=fault F={showFault f}"
+    | .error f, _ => pure s!"W=[] D= E=fault F={showFault f}"
+    | _, .error f => pure s!"W=[] D= E=fault F={showFault f}"
   | "splitmsg", [t, w, bad] => do
     let t ← arg t; let w ← w.toNat?; let bad ← argList bad
     pure (listHx (splitMessage (fun x => !bad.contains x) t w))
